@@ -667,7 +667,10 @@ func (c *CaseC01) evalCLI(ob *Obs, m *refModel) []Finding {
 			for el, wv := range want {
 				wf, _ := wv.Float64()
 				gv, ok := got[name][el]
-				if !ok || math.Abs(gv-wf) > 0.005+1e-9*math.Abs(wf) {
+				// (tolerance relative to the largest partial product: float sums that cancel lose digits of the
+				// terms, not of the result)
+				scale, _ := m.absMax.Float64()
+				if !ok || math.Abs(gv-wf) > 0.005+1e-9*math.Max(math.Abs(wf), scale) {
 					return append(out, Finding{"C01 cli-wrong-resolution", fmt.Sprintf("order %s: recipe %q element %q printed %v, model %v", mode, name, el, gv, wf)})
 				}
 			}
@@ -693,9 +696,10 @@ func (c *CaseC01) evalCLIMore(ob *Obs, m *refModel) []Finding {
 	}
 	sort.Strings(elNames)
 	bookText := render(c.Book, c.Layout)
+	scale, _ := m.absMax.Float64()
 	near := func(got float64, want *big.Rat) bool {
 		wf, _ := want.Float64()
-		return math.Abs(got-wf) <= 0.005+1e-9*math.Abs(wf)
+		return math.Abs(got-wf) <= 0.005+1e-9*math.Max(math.Abs(wf), scale)
 	}
 	for i, el := range elNames {
 		if i >= 2 {
